@@ -10,7 +10,8 @@ From BV Require Import Base UStr.
 From BVGen Require Import UnicodeTables ActiveTagTables.
 
 Inductive cls := CAny | CWord | CDigit | CNonSpace | CAlpha | CSignedInt | CFloat.
-Inductive conv := VText | VInt | VSmallInt (* a custom converter that raises ValueError above 99 *) | VFloatText.
+Inductive conv := VText | VInt | VSmallInt (* a custom converter that raises ValueError above 99 *) | VFloatText
+                | VZeroNone (* a custom converter that returns None for zero *).
 
 Inductive atom :=
 | ALit (s : ustr)
@@ -85,7 +86,7 @@ Fixpoint match_atoms (anchored_end : bool) (atoms : list atom) (text : ustr) : o
   end.
 
 (* ---- arguments ---- *)
-Inductive value := XText (s : ustr) | XInt (z : Z) | XFloatOf (s : ustr).
+Inductive value := XText (s : ustr) | XInt (z : Z) | XFloatOf (s : ustr) | XNone.
 Record argument := mkArg { a_start : nat; a_end : nat; a_original : ustr; a_value : value; a_name : option ustr }.
 
 Definition dec_digits (s : ustr) : Z := fold_left (fun a c => (a * 10 + Z.of_N (c - 48))%Z) s 0%Z.
@@ -101,6 +102,7 @@ Definition convert (cv : conv) (s : ustr) : option value :=
   | VInt => Some (XInt (int_value s))
   | VSmallInt => let z := int_value s in if Z.ltb 99 z then None else Some (XInt z)
   | VFloatText => Some (XFloatOf s)
+  | VZeroNone => let z := int_value s in Some (if Z.eqb z 0 then XNone else XInt z)
   end.
 
 Inductive match_result := NoMatch | ConvError | Matched (args : list argument).
